@@ -273,7 +273,8 @@ namespace bluetoe {
         {
         public:
             notification_queue_impl()
-                : state_( notification_queue_entry_type::empty )
+                : notification_( false )
+                , indication_( false )
             {
             }
 
@@ -282,10 +283,8 @@ namespace bluetoe {
                 static_cast< void >( idx );
                 assert( idx == 0 );
 
-                const bool result = state_ == notification_queue_entry_type::empty;
-
-                if ( result )
-                    state_ = notification_queue_entry_type::notification;
+                const bool result = !notification_;
+                notification_ = true;
 
                 return result;
             }
@@ -294,35 +293,41 @@ namespace bluetoe {
             {
                 static_cast< void >( idx );
                 assert( idx == 0 );
-                const bool result = state_ == notification_queue_entry_type::empty;
 
-                if ( result )
-                    state_ = notification_queue_entry_type::indication;
+                const bool result = !indication_;
+                indication_ = true;
 
                 return result;
             }
 
             std::pair< notification_queue_entry_type, std::size_t > dequeue_indication_or_confirmation( std::size_t offset, std::size_t& outstanding_confirmation )
             {
-                const auto result = state_ == notification_queue_entry_type::notification || ( state_ == notification_queue_entry_type::indication && outstanding_confirmation == details::no_outstanding_indicaton )
-                    ? std::pair< notification_queue_entry_type, std::size_t >{ static_cast< notification_queue_entry_type >( state_ ), offset }
-                    : std::pair< notification_queue_entry_type, std::size_t >{ notification_queue_entry_type::empty, 0 };
-
-                if ( result.first == notification_queue_entry_type::indication )
+                if ( indication_ && outstanding_confirmation == details::no_outstanding_indicaton )
+                {
+                    indication_ = false;
                     outstanding_confirmation = offset;
 
-                if ( result.first != notification_queue_entry_type::empty )
-                    state_ = notification_queue_entry_type::empty;
+                    return { notification_queue_entry_type::indication, offset };
+                }
 
-                return result;
+                if ( notification_ )
+                {
+                    notification_ = false;
+
+                    return { notification_queue_entry_type::notification, offset };
+                }
+
+                return { notification_queue_entry_type::empty, 0 };
             }
 
             void clear_indications_and_confirmations()
             {
-                state_ = notification_queue_entry_type::empty;
+                notification_ = false;
+                indication_   = false;
             }
         private:
-            notification_queue_entry_type state_;
+            bool notification_;
+            bool indication_;
         };
 
         template < int C >
